@@ -285,14 +285,27 @@ def run(chk):
   # iteration (two adjacent iteration blocks would interleave their rounds and
   # the later one would read tables the earlier one is still recomputing)
   one = [p_ for p_ in u.fi.params if p_ != 'self'][0]
-  skips = [x for x in walk_local(u.fi.node) if isinstance(x, ast.While)]
+  # the search for the position: a `while` over an index, or a `for` over the
+  # queue with a break at the first action of another iteration
+  skips = []
+  queue_elems = set()
+  for x in walk_local(u.fi.node):
+    if isinstance(x, ast.While):
+      skips.append(x.test)
+    elif isinstance(x, ast.For) and 'actions_to_run' in norm(x.iter):
+      queue_elems |= {n_.id for n_ in ast.walk(x.target) if isinstance(n_, ast.Name)}
+      for y in ast.walk(x):
+        if isinstance(y, ast.If):
+          skips.append(y.test)
   same_iter = False
-  for w in skips:
-    for c in ast.walk(u.expand(w.test)):
-      if isinstance(c, ast.Compare) and len(c.ops) == 1 and isinstance(c.ops[0], ast.Eq):
+  for t_ in skips:
+    for c in ast.walk(u.expand(t_)):
+      if isinstance(c, ast.Compare) and len(c.ops) == 1 and isinstance(c.ops[0], (ast.Eq, ast.NotEq)):
         l, r_ = norm(c.left, 300), norm(c.comparators[0], 300)
+        queued = lambda t: 'actions_to_run' in t or any(
+            ('[%s]' % q_) in t for q_ in queue_elems)
         if 'action_iteration[' in l and 'action_iteration[' in r_ and \
-            ((one in l) != (one in r_)) and ('actions_to_run' in l or 'actions_to_run' in r_):
+            ((one in l) != (one in r_)) and (queued(l) or queued(r_)):
           same_iter = True
   if skips or any(call_tail(st.value) == 'insert' if isinstance(st, ast.Expr) else True
                   for n, st in requeue):
